@@ -976,4 +976,32 @@ theorem tie_assigns (st : Settings) (a b : String) (n : Nat) :
     engineUseAssigns = [("ng.middlewares", "append(ng.middlewares, middleware)")] := by
   refine ⟨rfl, rfl, rfl, rfl, rfl, rfl, rfl, rfl, rfl, rfl, rfl, rfl, by decide, rfl, by decide, rfl, rfl, rfl, rfl, rfl, rfl, rfl⟩
 
+/-! ### round 5e: which methods the 405 decision looks at (class of seeded change C09-10) -/
+
+/-- **`methodsAllowed` looks at EVERY tree the router holds** — the loop ranges over `pr.trees` itself (key = the method,
+value = its tree), not over a list of method names that could fall out of step with `validMethod`; the model's
+`methodsAllowed` filters `r.trees`: a method is listed iff it has a tree, is not the request's method, and its tree
+matches — for all routers, methods and paths.  No package-level table exists in the three files (only the error values,
+`search.NotFound` and the pathvar key), and the other loops on the property's path range over the structure the model
+folds over (`engine.routes`, the group's routes, both children maps). -/
+theorem tie_allowed_methods (r : Router) (m p x : String) :
+    methodsAllowedRanges = [("treeMethod", "tree", "pr.trees")] ∧
+    methodsAllowedAccess = [("trees", "range", 0, "pr.trees")] ∧
+    (x ∈ methodsAllowed r m p ↔ ∃ root, (x, root) ∈ r.trees ∧ x ≠ m ∧ (searchClean root p).isSome = true) ∧
+    patrouterPackageVars = ["ErrInvalidMethod = errors.New(\"not a valid http method\")",
+      "ErrInvalidPath = errors.New(\"path must begin with '/'\")"] ∧
+    treePackageVars = ["errDupItem = errors.New(\"duplicated item\")", "errDupSlash = errors.New(\"duplicated slash\")",
+      "errEmptyItem = errors.New(\"empty item\")", "errInvalidState = errors.New(\"search tree is in an invalid state\")",
+      "errNotFromRoot = errors.New(\"path should start with /\")", "NotFound = zero Result"] ∧
+    pathvarPackageVars = ["pathVars = contextKey(\"pathVars\")"] ∧
+    forEachRanges = [("_", "children", "nd.children"), ("k", "v", "children")] ∧
+    engineBindRoutesRanges = [("_", "fr", "ng.routes")] ∧ engineBindFeaturedRanges = [("_", "route", "fr.routes")] ∧
+    serverRoutesRanges = [("_", "r", "s.ngin.routes")] ∧ withPrefixRanges = [("_", "rt", "r.routes")] := by
+  refine ⟨rfl, rfl, ?_, rfl, rfl, rfl, rfl, rfl, rfl, rfl, rfl⟩
+  unfold methodsAllowed
+  simp only [List.mem_map, List.mem_filter, Bool.and_eq_true, bne_iff_ne, ne_eq]
+  constructor
+  · rintro ⟨⟨k, root⟩, ⟨hm, hne, hs⟩, rfl⟩; exact ⟨root, hm, hne, hs⟩
+  · rintro ⟨root, hm, hne, hs⟩; exact ⟨(x, root), ⟨hm, hne, hs⟩, rfl⟩
+
 end GoZero.C09.Tie
